@@ -5,9 +5,11 @@ cd /repo || exit 2
 if [ -n "$(git status --porcelain)" ]; then echo "/repo not clean"; exit 2; fi
 git apply "$d/patch.diff" || { echo "patch does not apply"; exit 3; }
 cd /verif
+mkdir -p /tmp/evsave && cp evidence/*.json /tmp/evsave/ 2>/dev/null
 for p in "$@"; do
   ./check "$p" quick > /tmp/mutant_$p.log 2>&1; rc=$?
   echo "== $d $p exit=$rc violations=$(grep -c '^VIOLATION' /tmp/mutant_$p.log)"
   grep '^VIOLATION' /tmp/mutant_$p.log | sed 's/.*obligation=//' | head -5
 done
 git -C /repo checkout -- .
+cp /tmp/evsave/*.json /verif/evidence/ 2>/dev/null; rm -rf /verif/replays/* 2>/dev/null
